@@ -1,7 +1,15 @@
 From Coq Require Import ZArith List Bool Lia ZifyBool.
 From HV Require Import Prelude.Py Prelude.State Bridge.BridgeConsts.
+From HV Require Import Prelude.PyExtra Bridge.BridgeHex.
 From HV Require Gen.GData Gen.GInt Gen.GTable Gen.GHuff Model.Data Model.Int Model.Table Model.HuffEnc Model.HuffDec.
 Open Scope Z_scope.
 Lemma b_HuffmanEncoder_encode : forall c s, GHuff.HuffmanEncoder_encode c s = HuffEnc.HuffmanEncoder_encode c s.
-Proof. bridge. Qed.
+Proof.
+  first
+    [ solve [ bridge ]
+    | (* the hexadecimal text written with format(n, "x") / f"{n:x}" and zfill: the case analysis of the cascade, with
+         the new spellings rewritten into the old ones (Bridge/BridgeHex.v; valid for all integers and strings) as
+         soon as they show up *)
+      solve [ bridge_crush ltac:(hex_rw) ] ].
+Qed.
 Print Assumptions b_HuffmanEncoder_encode.
